@@ -16,7 +16,7 @@ class CsError(Exception):
 
 
 TOKEN = re.compile(r"\s*(?:(//[^\n]*|/\*.*?\*/)|([A-Za-z_]\w*)|(\d+(?:\.\d+)?)|(\"[^\"]*\")|(==|!=|&&|\|\||[{}()\[\];,.<>=!:?+\-*/]))", re.S)
-KEYWORDS = {"if", "else", "return", "new", "is", "as", "this", "true", "false", "null", "while", "out"}
+KEYWORDS = {"if", "else", "return", "new", "is", "as", "this", "true", "false", "null", "while", "out", "lock"}
 MODIFIERS = {"public", "internal", "private", "protected", "virtual", "override", "static", "partial", "abstract", "sealed", "readonly"}
 
 
@@ -78,6 +78,7 @@ class Method:
 class Class:
     def __init__(self, name):
         self.name, self.bases, self.fields, self.methods, self.ctor, self.is_enum, self.members = name, [], {}, {}, None, False, []
+        self.field_types = {}
 
 
 class Parser:
@@ -175,7 +176,7 @@ class Parser:
             body = self.block()
             c.ctor = Method(c.name, None, params, body, c)
             return
-        self.type_name()                                         # return / field type
+        ftype = self.type_name()                                 # return / field type
         name = self.next()
         while self.peek() == ".":                                # explicit interface implementation  I.M
             self.next()
@@ -203,6 +204,7 @@ class Parser:
             init = self.expr()
         self.expect(";")
         c.fields[name] = init
+        c.field_types[name] = ftype
 
     def params(self):
         self.expect("(")
@@ -247,8 +249,12 @@ class Parser:
             e = None if self.peek() == ";" else self.expr()
             self.expect(";")
             return ("return", e)
-        if tok == "while":
-            raise CsError("loops are outside the modelled subset")
+        if tok in ("while", "lock"):
+            self.next()
+            self.expect("(")
+            c = self.expr()
+            self.expect(")")
+            return (tok, c, self.stmt())
         # local declaration  T x = e;   (two identifiers in a row)
         if re.fullmatch(r"[A-Za-z_]\w*", tok or "") and tok not in KEYWORDS and re.fullmatch(r"[A-Za-z_]\w*", self.peek(1) or "") \
                 and self.peek(1) not in KEYWORDS and self.peek(2) == "=":
@@ -294,11 +300,20 @@ class Parser:
             ty = None
             if self.peek() != "(":
                 ty = self.type_name()
-            self.expect("(")
-            self.expect(")")
-            if self.peek() == "{":
-                raise CsError("object initialisers are outside the modelled subset")
-            return ("new", ty)
+            args = self.args()
+            inits = []
+            if self.peek() == "{":                               # object initialiser { Name = e, ... }
+                self.next()
+                while self.peek() != "}":
+                    nm = self.next()
+                    self.expect("=")
+                    inits.append((nm, self.expr()))
+                    if self.peek() == ",":
+                        self.next()
+                self.expect("}")
+            if not args and not inits:
+                return ("new", ty)
+            return ("newx", ty, args, inits)
         if tok in ("true", "false"):
             return ("lit", tok == "true")
         if tok == "null":
@@ -320,7 +335,12 @@ class Parser:
         self.expect("(")
         res = []
         while self.peek() != ")":
-            res.append(self.expr())
+            if self.peek() == "out":                             # out T name : declares a local that the callee sets
+                self.next()
+                ty = self.type_name()
+                res.append(("out", ty, self.next()))
+            else:
+                res.append(self.expr())
             if self.peek() == ",":
                 self.next()
         self.expect(")")
@@ -388,8 +408,8 @@ class _Return(Exception):
 
 
 class Interp:
-    def __init__(self, classes, max_steps=100000):
-        self.classes, self.steps, self.max_steps = classes, 0, max_steps
+    def __init__(self, classes, max_steps=100000, sched=None):
+        self.classes, self.steps, self.max_steps, self.sched = classes, 0, max_steps, sched
 
     def bases(self, cname):
         seen, todo = [], [cname]
@@ -406,6 +426,11 @@ class Interp:
         for c in self.bases(cname):
             if c in self.classes and name in self.classes[c].methods and self.classes[c].methods[name].body is not None:
                 return self.classes[c].methods[name]
+        for c in self.bases(cname):                              # explicit interface implementation  void I.M(...)
+            if c in self.classes:
+                for mn, m in self.classes[c].methods.items():
+                    if mn.endswith("." + name) and m.body is not None:
+                        return m
         return None
 
     def instance_of(self, v, tname):
@@ -418,7 +443,8 @@ class Interp:
         for c in reversed(self.bases(cname)):
             if c in self.classes:
                 for f, init in self.classes[c].fields.items():
-                    o.fields[f] = None if init is None else self.eval(init, {"this": o, "$types": {}, "$decl": None})
+                    o.fields[f] = None if init is None else self.eval(
+                        init, {"this": o, "$types": {}, "$decl": self.classes[c].field_types.get(f)})
         ctor = self.classes[cname].ctor
         if ctor is not None:
             self.invoke(ctor, o, None, list(args))
@@ -460,6 +486,17 @@ class Interp:
                 self.exec(s[3], env)
         elif k == "return":
             raise _Return(None if s[1] is None else self.eval(s[1], env))
+        elif k == "while":
+            while self.truth(self.eval(s[1], env)):
+                self.exec(s[2], env)
+        elif k == "lock":
+            o = self.eval(s[1], env)
+            static_call(self, "Monitor", "Enter", [o], env)
+            try:
+                self.exec(s[2], env)
+            finally:
+                if not (self.sched and self.sched.aborting):
+                    static_call(self, "Monitor", "Exit", [o], env)
         elif k == "local":
             env2 = dict(env)
             env2["$decl"] = s[1]
@@ -506,11 +543,31 @@ class Interp:
                 return env[n]
             if isinstance(env["this"], Obj) and n in env["this"].fields:
                 return env["this"].fields[n]
-            if n in self.classes:
+            if n in self.classes or n in BUILTIN_TYPES:
                 return ("type", n)
+            if isinstance(env["this"], Obj) and self.find_method(env["this"].cls, n) is not None:
+                return ("methodgroup", env["this"], n)
             raise CsError("unknown name %s" % n)
+        if k == "newx":
+            ty = e[1] if e[1] is not None else env.get("$decl")
+            if ty is None:
+                raise CsError("target-typed new without a declared type")
+            ty = self.resolve_type(ty, env)
+            args = [self.eval(a, env) for a in e[2]]
+            o = make_builtin(self, ty, args) if ty in BUILTIN_TYPES else self.new(ty, args)
+            for nm, ie in e[3]:
+                v = self.eval(ie, env)
+                if isinstance(o, Builtin):
+                    o.set_prop(nm, v)
+                elif nm in o.fields:
+                    o.fields[nm] = v
+                else:
+                    raise CsError("%s has no field %s" % (o.cls, nm))
+            return o
         if k == "new":
             ty = e[1] if e[1] is not None else env.get("$decl")
+            if ty is not None and self.resolve_type(ty, env) in BUILTIN_TYPES:
+                return make_builtin(self, self.resolve_type(ty, env), [])
             if ty is None:
                 raise CsError("target-typed new without a declared type")
             return self.new(self.resolve_type(ty, env))
@@ -528,9 +585,15 @@ class Interp:
             raise CsError("NullReferenceException: member %s of %r" % (e[2], o))
         if k == "call":
             o = self.eval(e[1], env)
-            args = [self.eval(a, env) for a in e[4]]
+            args = [a if a[0] == "out" else self.eval(a, env) for a in e[4]]
             if isinstance(o, External):
                 return o.callback(e[2], args)
+            if isinstance(o, Builtin):
+                return o.call(self, e[2], args, env)
+            if isinstance(o, tuple) and o[0] == "type" and o[1] in BUILTIN_TYPES:
+                return static_call(self, o[1], e[2], args, env)
+            if any(isinstance(a, tuple) and a and a[0] == "out" for a in args):
+                raise CsError("out argument to a user method is outside the modelled subset")
             if not isinstance(o, Obj):
                 raise CsError("NullReferenceException: call of %s on %r" % (e[2], o))
             m = self.find_method(o.cls, e[2])
@@ -550,3 +613,243 @@ class Interp:
         if k == "not":
             return not self.truth(self.eval(e[1], env))
         raise CsError("unknown expression " + k)
+
+
+# ------------------------------------------------------------------ threads, queues and synchronisation primitives
+# The generated THREADED configuration uses System.Threading / System.Collections.Concurrent.  They are modelled as
+# scheduled primitives: every operation is one atomic step preceded by a yield point at which an explicit cooperative
+# scheduler (Sched) decides which thread runs next; blocking operations are enabled only when their condition holds.
+# Types or members that are not listed raise CsError (fail closed).
+BUILTIN_TYPES = {"Thread", "ThreadStart", "ConcurrentQueue", "Queue", "AutoResetEvent", "ManualResetEvent", "ManualResetEventSlim",
+                 "SemaphoreSlim", "Monitor", "BlockingCollection", "Action", "Object", "object"}
+
+
+class _Abort(BaseException):
+    pass
+
+
+class Sched:
+    """Cooperative scheduler: exactly one C# thread runs at a time; control changes hands only at yield points.
+    choose(runnable names, step) -> name decides; the sequence of decisions is the schedule."""
+    def __init__(self, choose, max_yields=4000):
+        import threading
+        self.threading = threading
+        self.choose, self.max_yields = choose, max_yields
+        self.threads = []          # dicts: name, sem, state ('ready'|'blocked'|'done'), pred, error, what
+        self.ctl = threading.Semaphore(0)
+        self.current = None
+        self.aborting = False
+        self.log = []              # (thread name, yield point) in execution order
+        self.yields = 0
+
+    def spawn(self, name, fn):
+        t = {"name": name, "sem": self.threading.Semaphore(0), "state": "ready", "pred": None, "error": None, "what": "start"}
+
+        def body():
+            t["sem"].acquire()
+            try:
+                if not self.aborting:
+                    fn()
+            except _Abort:
+                pass
+            except CsError as e:
+                t["error"] = str(e)
+            except BaseException as e:   # noqa
+                t["error"] = "%s: %s" % (type(e).__name__, e)
+            t["state"] = "done"
+            self.ctl.release()
+        t["py"] = self.threading.Thread(target=body, daemon=True)
+        self.threads.append(t)
+        t["py"].start()
+        return t
+
+    def me(self):
+        return self.current
+
+    def point(self, what, pred=None):
+        """Yield point of the running thread; with pred the thread is blocked until pred() holds."""
+        t = self.current
+        if t is None:
+            if pred is not None and not pred():
+                raise CsError("blocking operation %s outside a scheduled thread" % what)
+            return
+        t["what"], t["pred"] = what, pred
+        t["state"] = "ready" if pred is None else "blocked"
+        self.ctl.release()
+        t["sem"].acquire()
+        if self.aborting:
+            raise _Abort()
+
+    def runnable(self):
+        return [t for t in self.threads if t["state"] == "ready" or (t["state"] == "blocked" and t["pred"]())]
+
+    def step(self):
+        """Let the scheduler's choice run up to its next yield point. Returns the thread's name or None if none can run."""
+        r = self.runnable()
+        if not r:
+            return None
+        self.yields += 1
+        if self.yields > self.max_yields:
+            raise CsError("schedule longer than %d steps" % self.max_yields)
+        name = self.choose([t["name"] for t in r], len(self.log))
+        t = next(x for x in r if x["name"] == name)
+        self.log.append((t["name"], t["what"]))
+        t["state"], t["pred"] = "running", None
+        self.current = t
+        t["sem"].release()
+        self.ctl.acquire()
+        self.current = None
+        if t["error"]:
+            raise CsError("thread %s: %s" % (t["name"], t["error"]))
+        return name
+
+    def shutdown(self):
+        self.aborting = True
+        for t in self.threads:
+            if t["state"] != "done":
+                t["sem"].release()
+        for t in self.threads:
+            t["py"].join(timeout=2)
+
+
+class Builtin:
+    def __init__(self, interp, ty, args):
+        self.interp, self.ty = interp, ty
+        self.items, self.flag, self.count, self.owner, self.depth, self.waiters = [], False, 0, None, 0, []
+        self.target, self.thread, self.background = None, None, False
+        if ty in ("AutoResetEvent", "ManualResetEvent", "ManualResetEventSlim"):
+            self.flag = bool(args[0]) if args else False
+        elif ty == "SemaphoreSlim":
+            self.count = int(args[0]) if args else 0
+        elif ty in ("Thread", "ThreadStart", "Action"):
+            if len(args) != 1:
+                raise CsError("new %s needs one argument" % ty)
+            self.target = args[0].target if isinstance(args[0], Builtin) else args[0]
+            if not (isinstance(self.target, tuple) and self.target[0] == "methodgroup"):
+                raise CsError("new %s: argument is not a method" % ty)
+        elif args:
+            raise CsError("new %s with arguments is outside the modelled subset" % ty)
+
+    def set_prop(self, name, v):
+        if self.ty == "Thread" and name in ("IsBackground", "Name", "Priority"):
+            self.background = v if name == "IsBackground" else self.background
+        else:
+            raise CsError("%s has no settable property %s" % (self.ty, name))
+
+    def _pt(self, what, pred=None):
+        if self.interp.sched is not None:
+            self.interp.sched.point("%s.%s" % (self.ty, what), pred)
+        elif pred is not None and not pred():
+            raise CsError("%s.%s would block and there is no scheduler" % (self.ty, what))
+
+    def call(self, it, name, args, env):
+        ty = self.ty
+        if ty in ("ConcurrentQueue", "Queue", "BlockingCollection"):
+            if name in ("Enqueue", "Add") and len(args) == 1:
+                self._pt(name)
+                self.items.append(args[0])
+                return None
+            if name in ("TryDequeue", "TryTake") and len(args) == 1 and args[0][0] == "out":
+                self._pt(name)
+                ok = bool(self.items)
+                env[args[0][2]] = self.items.pop(0) if ok else None
+                return ok
+            if name == "TryPeek" and len(args) == 1 and args[0][0] == "out":
+                self._pt(name)
+                env[args[0][2]] = self.items[0] if self.items else None
+                return bool(self.items)
+            if name in ("Count", "IsEmpty"):
+                raise CsError("%s.%s is a property, not a method" % (ty, name))
+            if name in ("Dequeue",) and not args and ty == "Queue":
+                self._pt(name)
+                if not self.items:
+                    raise CsError("InvalidOperationException: Dequeue on an empty Queue")
+                return self.items.pop(0)
+            if name == "Take" and not args and ty == "BlockingCollection":
+                self._pt(name, lambda: bool(self.items))
+                return self.items.pop(0)
+        if ty in ("AutoResetEvent", "ManualResetEvent", "ManualResetEventSlim"):
+            if name == "Set" and not args:
+                self._pt(name)
+                self.flag = True
+                return True
+            if name == "Reset" and not args:
+                self._pt(name)
+                self.flag = False
+                return True
+            if name in ("WaitOne", "Wait") and not args:
+                self._pt(name, lambda: self.flag)
+                if ty == "AutoResetEvent":
+                    self.flag = False
+                return True
+        if ty == "SemaphoreSlim":
+            if name == "Release" and not args:
+                self._pt(name)
+                self.count += 1
+                return None
+            if name == "Wait" and not args:
+                self._pt(name, lambda: self.count > 0)
+                self.count -= 1
+                return None
+        if ty == "Thread":
+            if name == "Start" and not args:
+                if it.sched is None:
+                    raise CsError("Thread.Start without a scheduler")
+                self._pt("Start")
+                _mg, obj, mname = self.target
+                m = it.find_method(obj.cls, mname)
+                self.thread = it.sched.spawn("T%d" % len(it.sched.threads), lambda: it.invoke(m, obj, None, []))
+                return None
+            if name == "Join" and not args:
+                self._pt("Join", lambda: self.thread is not None and self.thread["state"] == "done")
+                return None
+        raise CsError("%s.%s(%d args) is outside the modelled primitives" % (ty, name, len(args)))
+
+
+def make_builtin(interp, ty, args):
+    if ty == "Monitor":
+        raise CsError("Monitor cannot be instantiated")
+    return Builtin(interp, ty, args)
+
+
+_MONITORS = {}
+
+
+def static_call(it, ty, name, args, env):
+    sch = it.sched
+    if ty == "Thread" and name in ("Sleep", "Yield", "SpinWait"):
+        if sch is not None:
+            sch.point("Thread." + name)
+        return None
+    if ty == "Monitor" and args:
+        key = id(args[0])
+        mon = _MONITORS.setdefault(key, {"owner": None, "depth": 0, "pulses": 0, "obj": args[0]})
+        me = sch.me()["name"] if (sch and sch.me()) else "main"
+        if name == "Enter":
+            if sch is not None:
+                sch.point("Monitor.Enter", lambda: mon["owner"] in (None, me))
+            mon["owner"], mon["depth"] = me, mon["depth"] + 1
+            return None
+        if name == "Exit":
+            if mon["owner"] != me:
+                raise CsError("SynchronizationLockException: Monitor.Exit by a thread that does not own the lock")
+            mon["depth"] -= 1
+            if mon["depth"] == 0:
+                mon["owner"] = None
+            return None
+        if name in ("Pulse", "PulseAll"):
+            if mon["owner"] != me:
+                raise CsError("SynchronizationLockException: Monitor.%s without the lock" % name)
+            mon["pulses"] = mon["pulses"] + 1 if name == "Pulse" else 1 << 20
+            return None
+        if name == "Wait" and len(args) == 1:
+            if mon["owner"] != me:
+                raise CsError("SynchronizationLockException: Monitor.Wait without the lock")
+            depth, mon["owner"], mon["depth"] = mon["depth"], None, 0
+            if sch is None:
+                raise CsError("Monitor.Wait without a scheduler")
+            sch.point("Monitor.Wait", lambda: mon["pulses"] > 0 and mon["owner"] is None)
+            mon["pulses"] -= 1
+            mon["owner"], mon["depth"] = me, depth
+            return True
+    raise CsError("%s.%s is outside the modelled primitives" % (ty, name))
